@@ -498,6 +498,31 @@ def getstate_membership(ctx, res):
                 res.oblige(not missing, key, facts.loc(x),
                            f"entries {missing} of {src} can be stored in "
                            f"trait->{field} but are not members of {table}")
+                # a slot that is *called* without a NULL test somewhere must
+                # never receive the NULL entry of its table
+                if None in entries and field in _unguarded_slots(ctx, facts):
+                    from ..csym import cached_paths
+                    excl = True
+                    for p_ in cached_paths(ctx, facts, fname) or []:
+                        for i_, it in enumerate(p_.trace):
+                            if it[0] == "store" and it[1].endswith(
+                                    "->" + field) and it[2].startswith(
+                                    src + "["):
+                                ok_ = any(
+                                    a[0] == "atom" and it[2] in a[1] and (
+                                        ("0 ==" in a[1] and a[2] is False)
+                                        or ("0 !=" in a[1] and a[2] is True)
+                                        or ("== 0" in a[1] and a[2] is False)
+                                        or ("!= 0" in a[1] and a[2] is True))
+                                    for a in p_.trace[:i_])
+                                excl = excl and ok_
+                    res.oblige(excl, key + ":non-null", facts.loc(x),
+                               f"`{fname}` can store the NULL entry of {src} "
+                               f"in trait->{field}, and trait->{field} is "
+                               f"called without a NULL test (e.g. in "
+                               f"has_traits_getattro/setattro): a crafted "
+                               f"state tuple makes the next attribute access "
+                               f"jump to address 0")
             elif rhs.kind == "MemberExpr" and rhs.name == field:
                 res.oblige(True, key, "", "")    # copy of the same field
             else:
@@ -505,6 +530,34 @@ def getstate_membership(ctx, res):
                     f"unclassified store into trait->{field} in {fname}: "
                     f"{cnorm(rhs)}")
     res.floor(20)
+
+
+def _unguarded_slots(ctx, facts):
+    """function-pointer fields of a CTrait that some call site invokes
+    without the path having tested them against NULL"""
+    def compute():
+        from ..csym import cached_paths
+        from .crec import _slot_functions
+        # the attribute-access slots of the file's own types: every get/set
+        # of every attribute goes through them
+        entry = _slot_functions(facts, "getattrofunc") | _slot_functions(
+            facts, "setattrofunc")
+        out = set()
+        for f in sorted(entry):
+            if not facts.has_func(f):
+                continue
+            for p_ in cached_paths(ctx, facts, f) or []:
+                for i_, it in enumerate(p_.trace):
+                    if it[0] == "call" and it[1].startswith("->") \
+                            and it[1][2:] in TRAIT_FP_FIELDS:
+                        k_ = it[3].rfind(it[1] + "(")
+                        recv = it[3][:k_ + len(it[1])] if k_ >= 0 \
+                            else it[3]
+                        if not any(a[0] == "atom" and recv in a[1]
+                                   for a in p_.trace[:i_]):
+                            out.add(it[1][2:])
+        return out
+    return ctx.memo("unguarded-slots", compute)
 
 
 # ---------------------------------------------------------------------------
